@@ -80,7 +80,16 @@ type Specs struct {
 	NoEffect  []string          // patterns of functions whose calls have no effect (results havocked)
 	Lemmas    []*Lemma          // pure SMT lemmas over the vocabulary
 	Callers   []*CallersRule
+	Guards    []*GuardRule
 	Imports   map[string]string // alias -> path (global across spec files)
+}
+
+type GuardRule struct {
+	Tags   []string
+	Struct string // qualified struct type name
+	Field  string
+	Mutex  string
+	Where  string
 }
 
 type CallersRule struct {
@@ -287,6 +296,19 @@ func (sp *Specs) parseLines(lines []rawLine, pkgPath string) error {
 				}
 				sp.Lemmas = append(sp.Lemmas, &Lemma{m[2], tags, e, src, b.head.file, b.head.line})
 			}
+		case "guarded":
+			// guarded[tags] pkg.Type.field by mutexField
+			m := regexp.MustCompile(`^guarded(?:\[([^\]]*)\])?\s+(\S+)\.(\w+)\s+by\s+(\w+)$`).FindStringSubmatch(h)
+			if m == nil {
+				return fmt.Errorf("%s: guarded[tags] pkg.Type.field by mutexField", where)
+			}
+			g := &GuardRule{Struct: sp.qualify(m[2], pkgPath), Field: m[3], Mutex: m[4], Where: where}
+			for _, t := range strings.Split(m[1], ",") {
+				if t = strings.TrimSpace(t); t != "" {
+					g.Tags = append(g.Tags, t)
+				}
+			}
+			sp.Guards = append(sp.Guards, g)
 		case "callers":
 			// callers[tags] <callee> only <fn>, <fn> ...
 			m := regexp.MustCompile(`^callers(?:\[([^\]]*)\])?\s+(.*?)\s+only\s+(.*)$`).FindStringSubmatch(h)
@@ -320,6 +342,9 @@ func (sp *Specs) parseLines(lines []rawLine, pkgPath string) error {
 				if err := sp.parseClause(c, it); err != nil {
 					return err
 				}
+			}
+			if m := c.Opts["mode"]; m != "" {
+				c.Key = c.Key + "@" + m
 			}
 			if old, dup := sp.Contracts[c.Key]; dup {
 				return fmt.Errorf("%s: duplicate contract for %s (first at %s:%d)", where, c.Key, old.File, old.Line)
